@@ -1360,7 +1360,31 @@ func (g *Gen) genAdv() *Op {
 	if gw != nil && r.Chance(0.5) {
 		relay = gw
 	}
-	switch r.Intn(13) {
+	switch r.Intn(14) {
+	case 13: // a sid owner's request forged with the key document of the attacker's own sid
+		if e.sidCreatedBy(adv) == "" {
+			return &Op{K: "did_bind", A: adv.Idx, N: -int64(r.Range(0, 120)), Note: "adv:own-sid"}
+		}
+		var victims []metaRef
+		for _, m := range ms {
+			if o := s.Model.Metas[m.id].Owner; strings.HasPrefix(o, "did:sid:") && o != e.sidCreatedBy(adv) {
+				victims = append(victims, m)
+			}
+		}
+		if len(victims) == 0 {
+			return nil
+		}
+		m := victims[r.Intn(len(victims))]
+		e.probe("request_forged_with_foreign_sid_document")
+		switch r.Intn(4) {
+		case 0:
+			return &Op{K: "terminate", A: relay.Idx, Own: adv.Idx + 1, D: m.d, Tam: "sidforge", Note: "adv:sidforge"}
+		case 1:
+			return &Op{K: "perm", A: relay.Idx, Own: adv.Idx + 1, D: m.d, L2: []int{adv.Idx}, Tam: "sidforge", Note: "adv:sidforge"}
+		case 2:
+			return &Op{K: "renew", A: relay.Idx, Own: adv.Idx + 1, Ds: []int{m.d}, Dur: 3600, Tmo: 5, Tam: "sidforge", Note: "adv:sidforge"}
+		}
+		return &Op{K: "store", A: relay.Idx, Own: adv.Idx + 1, D: m.d, Mode: "update", Rep: 1, Dur: 3600, Tmo: g.drawTmo(), Size: g.sizes(), Tam: "sidforge", Note: "adv:sidforge"}
 	case 0: // stranger-signed update with a commit id that embeds the data id
 		m, ok := pickMeta()
 		if !ok {
